@@ -30,6 +30,13 @@ def generate(seed, tier):
         # split into cases of 300 ops
         for i in range(0, len(ops), 300):
             cases.append(["case rng%d %s" % (i, ty)] + ops[i:i + 300])
+    # 1a. the same over end points -3..3 (negative coordinates) for the signed types
+    for ty in ("int", "double"):
+        ops = []
+        for a, b, c, d in itertools.product(range(-3, 4), repeat=4):
+            ops += ["r.pred %d %d %d %d" % (a, b, c, d), "r.expand %d %d %d %d" % (a, b, c, d), "r.slice %d %d %d %d" % (a, b, c, d)]
+        for i in range(0, len(ops), 300):
+            cases.append(["case neg%d %s" % (i, ty)] + ops[i:i + 300])
     # 1b. non-integral doubles (halves and quarters) over 0..6
     for sc in (2, 4):
         ops = []
@@ -67,19 +74,60 @@ def generate(seed, tier):
         # quick: every history at every coordinate type; thorough (length 3): the type rotates
         for ty in (TYPES if tier != "thorough" else [TYPES[(n + seed) % 3]]):
             cases.append(["case ex%d %s" % (n, ty)] + ops)
+    # 2b. the same histories over -3..3 (windows straddling 0, reset to [0,0[ next to negative ranges), int / double
+    if tier != "thorough":
+        n = 0
+        for seq in itertools.product(*([[(k, a - 3, b - 3) for k in kinds for (a, b) in pairs_all]] * 2)):
+            if seq[0][0] != "add" and n % 10:
+                n += 1
+                continue
+            n += 1
+            ops = []
+            for (k, a, b) in seq:
+                ops.append("mr.%s 0 %d %d" % (k, a, b))
+                ops.append("rs.%s 0 %d %d" % (k, a, b))
+            cases.append(["case nex%d %s" % (n, ("int", "double")[(n + seed) % 2])] + ops)
+    # 2c. large collections (std::sort leaves its insertion-sort regime at 17 elements): k ranges below 0, one
+    #     straddling 0, k above, then windows that empty most of them (the crash family of the audit), and random
+    #     large collections followed by restrictions / filters / bridging adds
+    for k in ([8, 9, 12, 16, 20] if tier != "thorough" else range(6, 24)):
+        for ty in ("int", "double", "uint"):
+            lo = 0 if ty == "uint" else -1
+            ops = []
+            if ty != "uint":
+                ops += ["mr.add 0 %d %d" % (-48 + 2 * i, -47 + 2 * i) for i in range(k)]
+            ops.append("mr.add 0 %d 1" % lo)
+            ops += ["mr.add 0 %d %d" % (3 + 2 * i, 4 + 2 * i) for i in range(k if ty != "uint" else 2 * k)]
+            ops += ["mr.copy 0 1", "mr.restrict 0 %d 1" % lo, "mr.restrict 1 -2 5" if ty != "uint" else "mr.restrict 1 0 5",
+                    "mr.copy 0 2", "mr.assign 1 3", "mr.add 3 1 40", "mr.filter 3 0 60"]
+            cases.append(["case big%d %s" % (k, ty)] + ops)
+    for i in range(60 if tier != "thorough" else 600):
+        ty = TYPES[i % 3]
+        lo = 0 if ty == "uint" else -48
+        ops = []
+        for _ in range(rng.randint(18, 45)):
+            a = rng.randint(lo, 90)
+            ops.append("mr.add 0 %d %d" % (a, a + rng.choice([0, 1, 1, 1, 2])))
+        for _ in range(4):
+            a, b = rng.randint(lo, 90), rng.randint(lo, 90)
+            ops.append(rng.choice(["mr.restrict 0 %d %d", "mr.filter 0 %d %d", "mr.add 0 %d %d"]) % (a, b))
+        cases.append(["case bigrnd%d %s" % (i, ty)] + ops)
     # 3. random histories up to length 12 over 0..24 with 4 registers, copies/assignments and clears
     nrand = 40000 if tier == "thorough" else 3000
     for i in range(nrand):
         ty = TYPES[i % 3]
         sc = rng.choice([1, 1, 2, 4]) if ty == "double" else 1
         M = 24 * sc
+        # half of the signed cases use the universe -24..24 (scale 4 stays non-negative: -96 is outside the
+        # specification vector of the driver)
+        LO = -M if (ty != "uint" and sc <= 2 and rng.random() < 0.5) else 0
         L = rng.randint(1, 12)
         ops = []
         for _ in range(L):
             r = rng.random()
             k = rng.randint(0, 1)
             pre = "mr" if rng.random() < 0.75 else "rs"
-            a, b = rng.randint(0, M), rng.randint(0, M)
+            a, b = rng.randint(LO, M), rng.randint(LO, M)
             if rng.random() < 0.15:
                 b = a
             if r < 0.50:
@@ -87,11 +135,11 @@ def generate(seed, tier):
             elif r < 0.67:
                 # restrictions are biased to be wide so that collections stay populated
                 if rng.random() < 0.5:
-                    a, b = rng.randint(0, 8 * sc), rng.randint(14 * sc, M)
+                    a, b = rng.randint(LO, 8 * sc), rng.randint(14 * sc, M)
                 ops.append("%s.restrict %d %d %d" % (pre, k, a, b))
             elif r < 0.80:
                 if rng.random() < 0.5:
-                    a, b = rng.randint(0, 8 * sc), rng.randint(14 * sc, M)
+                    a, b = rng.randint(LO, 8 * sc), rng.randint(14 * sc, M)
                 ops.append("%s.filter %d %d %d" % (pre, k, a, b))
             elif r < 0.84:
                 ops.append("%s.clear %d" % (pre, k))
@@ -102,12 +150,12 @@ def generate(seed, tier):
                 j = rng.randint(0, 3)
                 ops.append("%s.copy %d %d" % (pre, k, j))
                 # independence: mutate the copy, then look at the source again
-                ops.append("%s.add %d %d %d" % (pre, j, rng.randint(0, M), rng.randint(0, M)))
+                ops.append("%s.add %d %d %d" % (pre, j, rng.randint(LO, M), rng.randint(LO, M)))
                 ops.append("%s.get %d" % (pre, k))
             else:
                 j = rng.randint(0, 3)
                 ops.append("%s.assign %d %d" % (pre, k, j))
-                ops.append("%s.restrict %d %d %d" % (pre, j, rng.randint(0, 12 * sc), rng.randint(12 * sc, M)))
+                ops.append("%s.restrict %d %d %d" % (pre, j, rng.randint(LO, 12 * sc), rng.randint(12 * sc, M)))
                 ops.append("%s.get %d" % (pre, k))
         cases.append(["case rnd%d %s %d" % (i, ty, sc)] + ops)
     return cases
